@@ -7,12 +7,6 @@ import os, sys, json
 import fw
 from fw import gz, gbool, glist, gopt, gstr
 
-# histories are slow to evaluate in one coqc (strings); use many small shards so that all cores are used.
-# (framework change that would make this unnecessary: a per-property `coq_shard` attribute read by run_check)
-_coq_eval = fw.coq_eval
-def _coq_eval_small_shards(imports, terms, workdir, tag, timeout=600, shard=250):
-    return _coq_eval(imports, terms, workdir, tag, timeout, shard=max(10, min(250, (len(terms) + 9) // 10)))
-fw.coq_eval = _coq_eval_small_shards
 
 GRACE = 15
 US = 1000000
@@ -644,14 +638,14 @@ class C20(fw.Property):
                   "update POST / PUT / DELETE / GET / lookups / time passage: index bijection invariant (_by_key and _by_path hold the same objects, one per "
                   "(ep,d), one per location), the delete closures never raise, a registration is listed iff its lifetime timer is pending and not due, time "
                   "passage removes exactly the registrations whose lifetime+grace has passed and leaves the others untouched, re-registration keeps the location "
-                  "and new registrations get an unused one, every request answered 4.xx leaves the complete state unchanged, other registrations are untouched "
+                  "and new registrations get an unused one, every request answered 4.xx leaves the complete state unchanged and no handler answers 5.00, other registrations are untouched "
                   "by a write, unfiltered lookups render exactly the indexed registrations. The model is tied to the code by running both on the same histories "
                   "and comparing every answer, both lookup payloads as text, both indexes, lifetimes and pending expiry instants after every step.")
     level_note = ("Hand-written model (tie C only; no translated kernel). Trusted: the correspondence run (sampled histories), harness/simloop.py as an ideal timer "
                   "service, the plugin's own link-format writer/reader. Not modelled: SimpleRegistration (.well-known/rd, needs an outgoing request), the proxy "
                   "extension (proxy_domain is None: every proxy=... is 4.00), observation notifications of the lookup resources, key case-insensitivity of "
                   "Link.__contains__, Unicode digits/whitespace in int(), urljoin outside the grammar stated in Model/C20Str.v, valueless anchor attributes. "
-                  "Six open findings (5.00 answers, one of them after changing a lifetime; multi-criteria lookups) are modelled faithfully and listed in known_findings.d/C20.json.")
+                  "One open finding (multi-criteria lookups apply only the last criterion) is modelled faithfully and listed in known_findings.d/C20.json; five others found by this check were fixed in /repo (f8ef49b, 5a5d1e7).")
     rule = ("stream helpers (1 in 8) = the model's urljoin / int() / str.split() / query splitting against CPython's on scheme x authority x path x reference tables and "
             "random digit strings. stream history = 3..26 steps: register (28 %: names a/b/node1/'' x sectors -/x/y, 70 % clean parameters, else 1-2 injected faults among invalid/valueless/"
             "duplicate lt, valueless/duplicate base, ep missing/duplicate/valueless, d duplicate/valueless, forbidden keys rt/href/page/count/anchor/proxy; content-format "
